@@ -158,6 +158,18 @@ def gen(rng, tier, i):
     tc = '#pragma strict_types\ninherit "/g/tp";\nmixed main() {\n return ({ ' + ',\n  '.join('%s(%s)' % (nm, ', '.join(t[2] for t in args)) for nm, args in tfn) + ' });\n}\n'
     p.file('g/tp.c', tp); p.file('g/tc.c', tc)
     tnames = [nm for nm, _ in tfn] + ['warm', 'main']
+    # a family with a middle program that has NO saved binary and inherits two programs: ia (saved) <- ib <- ic1, ic2 (+ header)
+    fam = {'c1': 1, 'c2': 2, 'hv': 3, 'mul': 10000, 'pad': {'ic1': 0, 'ic2': 0, 'ib': 0}}
+    def fam_text(which):
+        pads = ''.join('int zpad_%s_%d() { return %d; }\n' % (which, k, k) for k in range(fam['pad'].get(which, 0)))
+        if which == 'ic1': return pads + 'int c1v() { return %d; }\n' % fam['c1']
+        if which == 'ic2': return '#include "/g/ih.h"\n' + pads + 'int c2v() { return %d + HV; }\n' % fam['c2']
+        if which == 'ih': return '#define HV %d\n' % fam['hv']
+        if which == 'ib': return 'inherit "/g/ic1";\ninherit "/g/ic2";\n' + pads + 'int bv() { return c1v() * %d + c2v(); }\n' % fam['mul']
+        return '#pragma save_binary\ninherit "/g/ib";\nint av() { return bv(); }\nvoid warm() { }\n'
+    def fam_value(): return fam['c1'] * fam['mul'] + fam['c2'] + fam['hv']
+    for which in ('ic1', 'ic2', 'ib', 'ia'): p.file('g/%s.c' % which, fam_text(which))
+    p.file('g/ih.h', fam_text('ih'))
     progs = [x for x in PROGS if x in w.order]
     phases = []
     def load_phase():
@@ -170,7 +182,7 @@ def gen(rng, tier, i):
         idents = sorted(set(re.findall(r'\b[A-Za-z_]\w{0,30}\b', ' '.join(em.text() for em in w.files.values()))))
         idents = sorted(set(idents + tnames))
         rng.shuffle(idents)
-        p.cycle(send(0, 'do ' + ';'.join('dest /g/%s' % x for x in progs + ['perm', 'tc', 'tp']) + '\r\n'))
+        p.cycle(send(0, 'do ' + ';'.join('dest /g/%s' % x for x in progs + ['perm', 'tc', 'tp', 'ia', 'ib', 'ic1', 'ic2']) + '\r\n'))
         p.cycle('writefile g/perm.c %s' % enc('string *names() {\n return ({ %s });\n}\nvoid warm() { }\n' % ',\n '.join('"%s"' % n for n in idents[:400])),
                 send(0, 'do call /g/perm warm\r\n'))
         ph['load_cycles'] = {}
@@ -184,6 +196,7 @@ def gen(rng, tier, i):
         # the twin: same text, never loaded from a binary, run against freshly loaded helpers
         ph['twin_cycle'] = p.cycle(send(0, 'do dest /g/o;dest /g/m2;%sxco r2 /g/m2 main\r\n' % ('call /g/o warm;' if 'o' in progs else '')))
         ph['typed_cycle'] = p.cycle(send(0, 'do call /g/tp warm;xco t /g/tc main\r\n'))
+        ph['fam_cycle'] = p.cycle(send(0, 'do xco f /g/ia av\r\n')); ph['fam_expect'] = fam_value()
         phases.append(ph)
     load_phase.need_connect = True
     load_phase()
@@ -193,7 +206,16 @@ def gen(rng, tier, i):
         p.cycle('adv %d' % (rng.randint(2, 6) * 1000000))
         r = rng.random()
         restart = False
-        if r < 0.45:
+        if r < 0.45 and rng.random() < 0.35:
+            # edit one member of the inherit family (a new value, and a function in front so that indexes shift)
+            which = rng.choice(('ic1', 'ic2', 'ic2', 'ih', 'ib'))
+            if which == 'ic1': fam['c1'] += 7
+            elif which == 'ic2': fam['c2'] += 5
+            elif which == 'ih': fam['hv'] += 11
+            else: fam['mul'] += 1000
+            if which != 'ih' and rng.random() < 0.7: fam['pad'][which] += 1
+            p.cycle('writefile g/%s %s' % ('ih.h' if which == 'ih' else which + '.c', enc(fam_text(which))))
+        elif r < 0.45:
             f = insert_marker(w, rng) if rng.random() < 0.65 else insert_global(w, rng, k)
             if f:
                 try: w.run()
@@ -269,6 +291,12 @@ def check(plan, res):
             logs = [e.rest for e in tev if e.kind == 'R' and e.rest.startswith('LOGERR')]
             bad('typed', 'a valid child of g/tp (#pragma save_types, loaded from %s) does not compile: %s' % ('its binary' if frombin else 'source', (logs[0] if logs else xr[-1])[:160]),
                 'behaviour/saved-types-differ-with-binary' if frombin else 'behaviour/typed-child-does-not-compile')
+        fev = events(ph.get('fam_cycle'))
+        fx = [e.rest for e in fev if e.kind == 'R' and e.rest.startswith('XR f ')]
+        if fx and fx[-1] != 'XR f int:%d' % ph['fam_expect']:
+            frombin = any(e.kind == 'fs' and e.rest.startswith('open_r bin/g/ia.b ') and not e.rest.endswith('ret=-1') for e in fev)
+            bad('family', 'g/ia (saved binary) <- g/ib (none) <- g/ic1, g/ic2: av() returned %s, the current sources say int:%d (ia loaded from %s)' % (fx[-1][5:], ph['fam_expect'], 'its binary' if frombin else 'source'),
+                'behaviour/inherit-family-stale' if frombin else 'behaviour/inherit-family-wrong')
         progs = ph['progs']
         inh = ph['inherit']
         def chain(x):
